@@ -8,6 +8,7 @@ Everything that is *data* in the module is read from the source with `ast` (the 
   the flags written in the `re.match` call (regex text -> `Re` through tools/gen/relib.py),
 * the slice bound and the needle of `_getTextType`,
 * `defaultencodings` of `encodingByMediaType`,
+* the shape and the four literals of `_MetaHTMLParser.handle_starttag`, the codec of the five bytes guards,
 * `bomDict`, the two `read` sizes, `xmlDeclPattern` (split at the named group `encstr` into the part before
   the group, the group body and the part after it) and the default `'utf-8'` of `detectXMLEncoding`.
 
@@ -234,6 +235,120 @@ def read_sniffer(tree):
     return bom, reads[0][1], reads[1][1], pattern, flags, default
 
 
+META_TEMPLATE = """
+class _MetaHTMLParser(html.parser.HTMLParser):
+    content_type = None
+
+    def handle_starttag(self, tag, attrs):
+        if tag == 'S' and not self.content_type:
+            atts = {a.lower(): (v or 'S').lower() for a, v in attrs}
+            if atts.get('S', 'S').strip() == 'S':
+                self.content_type = atts.get('S')
+"""
+
+
+class _Lits(ast.NodeTransformer):
+    """replaces every string literal by 'S' and remembers them in source order; parameters and local names are
+    renamed in order of first appearance (a renamed local is the same shape)"""
+    def __init__(self):
+        self.lits = []
+        self.names = {}
+
+    def _nm(self, x):
+        return self.names.setdefault(x, 'n%d' % len(self.names))
+
+    def visit_Constant(self, n):
+        if isinstance(n.value, str):
+            self.lits.append(n.value)
+            return ast.copy_location(ast.Constant(value='S'), n)
+        return n
+
+    def visit_arg(self, n):
+        n.arg = self._nm(n.arg)
+        return n
+
+    def visit_Name(self, n):
+        n.id = self._nm(n.id)
+        return n
+
+
+def _shape(cls):
+    cls.body = strip_doc(cls.body)
+    for n in cls.body:
+        if isinstance(n, ast.FunctionDef):
+            n.body = strip_doc(n.body)
+    t = _Lits()
+    cls = t.visit(cls)
+    return ast.dump(cls), t.lits
+
+
+def read_meta_parser(tree):
+    """_MetaHTMLParser: the class must have exactly the shape of META_TEMPLATE; the literals are data:
+    -> (tag, equiv key, equiv value, content key)"""
+    cls = [n for n in tree.body if isinstance(n, ast.ClassDef) and n.name == '_MetaHTMLParser']
+    need(len(cls) == 1, 'class _MetaHTMLParser')
+    want, _ = _shape(ast.parse(META_TEMPLATE).body[0])
+    got, lits = _shape(cls[0])
+    need(got == want, '_MetaHTMLParser does not have the modelled shape (content_type = None; handle_starttag: '
+         'tag test and not self.content_type; dict of lower-cased names and `(v or \'\').lower()` values; '
+         'stripped http-equiv compared; content taken)')
+    need(len(lits) == 6 and lits[1] == '' and lits[3] == '', '_MetaHTMLParser: the two defaults are empty strings')
+    return lits[0], lits[2], lits[4], lits[5]
+
+
+def read_decode_sites(tree):
+    """every `if isinstance(X, bytes): X = X.decode(LIT)` of the three consumers of a document -> [(function, X, LIT)]"""
+    out = []
+    for fname in ('_getTextType', 'getMetaInfo', 'detectXMLEncoding'):
+        f = func(tree, fname)
+        for n in ast.walk(f):
+            if isinstance(n, ast.If) and isinstance(n.test, ast.Call) and is_name(n.test.func, 'isinstance') \
+                    and len(n.test.args) == 2 and is_name(n.test.args[1], 'bytes'):
+                need(isinstance(n.test.args[0], ast.Name) and not n.orelse and len(n.body) == 1, 'bytes guard in ' + fname)
+                x = n.test.args[0].id
+                a = n.body[0]
+                ok = (isinstance(a, ast.Assign) and len(a.targets) == 1 and is_name(a.targets[0], x)
+                      and isinstance(a.value, ast.Call) and isinstance(a.value.func, ast.Attribute)
+                      and a.value.func.attr == 'decode' and is_name(a.value.func.value, x)
+                      and len(a.value.args) == 1 and not a.value.keywords)
+                need(ok, '`%s = %s.decode(<codec>)` expected at line %d' % (x, x, a.lineno))
+                out.append((fname, x, const_str(a.value.args[0])))
+    need([(f, x) for f, x, _ in out] == [('_getTextType', 'text'), ('getMetaInfo', 'text'), ('detectXMLEncoding', 'fp'),
+                                          ('detectXMLEncoding', 'head'), ('detectXMLEncoding', 'buffer')],
+         'the five bytes guards (text, text, fp, head, buffer): %r' % (out,))
+    return out
+
+
+def read_try_encodings(tree):
+    """tryEncodings, the branch without chardet: -> (encodings tuple, the name that gets the extra test, the codec of
+    the extra test, the character looked for, the name returned by the extra test)"""
+    f = func(tree, 'tryEncodings')
+    encs = special = alt = needle = altret = None
+    fors = [n for n in ast.walk(f) if isinstance(n, ast.For)]
+    need(len(fors) == 1 and isinstance(fors[0].target, ast.Name) and isinstance(fors[0].iter, ast.Name),
+         'tryEncodings: one `for <name> in <tuple name>` loop')
+    var, tup = fors[0].target.id, fors[0].iter.id
+    for n in ast.walk(f):
+        if isinstance(n, ast.Assign) and len(n.targets) == 1 and is_name(n.targets[0], tup):
+            need(isinstance(n.value, ast.Tuple), 'tryEncodings: the loop runs over a tuple literal')
+            encs = [const_str(e) for e in n.value.elts]
+        if isinstance(n, ast.If) and isinstance(n.test, ast.Compare) and len(n.test.ops) == 1:
+            t = n.test
+            if isinstance(t.ops[0], ast.Eq) and isinstance(t.left, ast.Constant) and is_name(t.comparators[0], var):
+                need(special is None, 'tryEncodings: one special name')
+                special = const_str(t.left)
+            if isinstance(t.ops[0], ast.In) and isinstance(t.left, ast.Constant):
+                c = t.comparators[0]
+                need(isinstance(c, ast.Call) and isinstance(c.func, ast.Attribute) and c.func.attr == 'decode'
+                     and is_name(c.func.value, 'text') and len(c.args) == 1, 'tryEncodings: `<char> in text.decode(<codec>)`')
+                needle, alt = const_str(t.left), const_str(c.args[0])
+                need(len(needle) == 1, 'tryEncodings: one character looked for')
+                need(len(n.body) == 1 and isinstance(n.body[0], ast.Return), 'tryEncodings: return under the extra test')
+                altret = const_str(n.body[0].value)
+    need(None not in (encs, special, alt, needle, altret), 'tryEncodings parts')
+    return encs, special, alt, needle, altret
+
+
 def split_pattern(pattern, flags, group='encstr'):
     """the pattern as (before, group body, after), each a relib AST. Requires `^` first (then `search` on a
     pattern without re.M is `match` at offset 0) and the named group at top level."""
@@ -303,6 +418,9 @@ def generate(repo):
     defaults = read_defaults(tree)
     bom, read1, read2, pattern, flags, default = read_sniffer(tree)
     parts = split_pattern(pattern, flags)
+    meta_lits = read_meta_parser(tree)
+    decode_sites = read_decode_sites(tree)
+    try_parts = read_try_encodings(tree)
     # self-check of the split against CPython's re (group span)
     rx = re.compile(pattern, flags)
     for t in SELF_CHECK:
@@ -403,6 +521,28 @@ def generate(repo):
     w('def declPre : Re := %s' % relib.tolean(parts[0]))
     w('def declGrp : Re := %s' % relib.tolean(parts[1]))
     w('def declPost : Re := %s' % relib.tolean(parts[2]))
+    w('')
+    w('/-! `_MetaHTMLParser.handle_starttag` (shape checked against the template of the translator; the literals are data) -/')
+    w('def metaTag : List Nat := %s  -- %r' % (lean_str(meta_lits[0]), meta_lits[0]))
+    w('def metaEquivKey : List Nat := %s  -- %r' % (lean_str(meta_lits[1]), meta_lits[1]))
+    w('def metaEquivValue : List Nat := %s  -- %r' % (lean_str(meta_lits[2]), meta_lits[2]))
+    w('def metaContentKey : List Nat := %s  -- %r' % (lean_str(meta_lits[3]), meta_lits[3]))
+    w('')
+    w('/-- the codec of every `if isinstance(X, bytes): X = X.decode(<codec>)` in the three consumers of a document -/')
+    w('def decodeCodecs : List (List Nat) := [')
+    for i, (fn, x, c) in enumerate(decode_sites):
+        w('  %s%s  -- %s: %s.decode(%r)' % (lean_str(c), ',' if i + 1 < len(decode_sites) else '', fn, x, c))
+    w(']')
+    w('')
+    w('/-! `tryEncodings`, the branch without chardet -/')
+    w('def tryEncodingsList : List (List Nat) := [')
+    for i, e in enumerate(try_parts[0]):
+        w('  %s%s  -- %r' % (lean_str(e), ',' if i + 1 < len(try_parts[0]) else '', e))
+    w(']')
+    w('def trySpecial : List Nat := %s  -- %r' % (lean_str(try_parts[1]), try_parts[1]))
+    w('def tryAltCodec : List Nat := %s  -- %r' % (lean_str(try_parts[2]), try_parts[2]))
+    w('def tryNeedle : Nat := %d  -- %r' % (ord(try_parts[3]), try_parts[3]))
+    w('def tryAltReturn : List Nat := %s  -- %r' % (lean_str(try_parts[4]), try_parts[4]))
     w('')
     w('end CssVerif.Gen.C20')
     return {'CssVerif/Gen/C20Tables.lean': '\n'.join(o) + '\n'}
